@@ -456,6 +456,9 @@ class ConditionTransformation(PreprocessingTransformation):
                     self.processing_item_applied(
                         condition
                     )  # mark as processed by processing item containing this transformation
+                    if i < len(rule.detection.condition):
+                        # keep the condition list used for serialisation in sync
+                        rule.detection.condition[i] = condition.condition
 
     @abstractmethod
     def apply_condition(self, cond: "SigmaCondition") -> None:
